@@ -348,6 +348,9 @@ func (c *compiler) evalUpdateIndex(left, index, value interface{}) error {
 		if !kv.IsValid() || !kv.Type().AssignableTo(mt.Key()) {
 			return fmt.Errorf("cannot use %v (%T) as %s value in map index", index, index, mt.Key())
 		}
+		if !kv.Comparable() {
+			return fmt.Errorf("cannot use %v (%T) as a map key: the value is not hashable", index, index)
+		}
 		vv := reflect.ValueOf(value)
 		if vv.IsValid() && !vv.Type().AssignableTo(mt.Elem()) {
 			return fmt.Errorf("cannot use '%v' (untyped %s constant) as %s value in assignment", value, vv.Type(), mt.Elem())
@@ -392,6 +395,9 @@ func (c *compiler) evalAccessIndex(left, index interface{}, node *ast.IndexExpre
 		if !kv.IsValid() || !kv.Type().AssignableTo(mapKeyType) {
 			err = fmt.Errorf("cannot use %v (%s constant) as %s value in map index", index, kv.Kind().String(), mapKeyType.Kind().String())
 			return nil, err
+		}
+		if !kv.Comparable() {
+			return nil, fmt.Errorf("cannot use %v (%T) as a map key: the value is not hashable", index, index)
 		}
 
 		val := rv.MapIndex(kv)
